@@ -26,6 +26,11 @@ func c19String(r *rand.Rand, def string) string {
 		func() string { return "#looks-like-a-comment" },
 		func() string { return "s:nested:i:5" },
 		func() string { return "Ünïcödé-значение-値" },
+		// last UTF-8 byte 0xA0 / 0x85 / 0x80 (what byte-wise "is space" tests mistake for blanks), first byte 0xC2/0xE2
+		func() string {
+			return []string{"voilà", "Å", "prefix-Å", "你", "name-你", "à", "日本 x", "100€", "Šà", "€uro-à"}[r.Intn(10)]
+		},
+		func() string { return []string{"%windir%\\system32", "100% sure", "%s%d%v", "a%20b"}[r.Intn(4)] },
 		func() string { return strings.Repeat("x", 4000) },
 		func() string { return def },
 		func() string { return []string{"true", "false", "0", "1", "-1"}[r.Intn(5)] },
